@@ -8,6 +8,7 @@ def main(argv):
     rep = vlib.Report(PID, 'model_checking', argv)
     vlib.build_harness()
     pp.run(rep, PID, common.pipeline_cfgs(rep, 'values'))
+    pp.run(rep, PID, common.pipeline_cfgs(rep, 'faults')[:1], modes='ctl-unsafe')   # the Error raised for a panic carries the context too
     rep.cov['rule'] = common.PIPE_RULE
     rep.cov['exhaustive'] = True
     rep.assumptions += ['the reference semantics Ops.tla follows the documentation, and the pinned commit where the documentation is silent',
